@@ -25,6 +25,8 @@ _PKG = {
 }
 for _p in ("C01", "C02", "C04", "C10", "C11"):
     PROPS[_p] = dict(_PKG)
+PROPS["C01"] = dict(_PKG, corr_targets=["Corr/PkgCorr.vo", "Corr/RawPartCorr.vo"],
+                    corr=_PKG["corr"] + "; Corr/RawPartCorr.v: Model.RawPart (reader of an existing numbering / footnotes / endnotes part by input offsets, the start and end tag the writers put around the kept children) vs the part the library writes after a list item or a note was added to an opened package, for parts in many spellings (prefixes, default namespace, blanks and line breaks in tags, self-closing root, comments, processing instructions and CDATA, damaged parts)")
 PROPS["C10"] = dict(_PKG, corr_targets=["Corr/PkgCorr.vo", "Corr/ExtentCorr.vo"],
                     corr=_PKG["corr"] + "; Corr/ExtentCorr.v: Model.Extent.extent vs the wp:extent of every body picture of every saved document whose pixel size and size configuration the harness knows (one EMU of tolerance for the floating-point derivation), configurations shared between additions included")
 
